@@ -181,7 +181,7 @@ theorem g2_raiseSig (st : St) (s : Int) : G2 st (raiseSig st s) := by
   · split
     · exact G2.of_eq rfl rfl
     · split
-      · exact G2.of_eq rfl rfl
+      · unfold sigRecord; split <;> first | exact G2.of_eq rfl rfl | exact G2.refl _
       · split
         · exact G2.of_eq rfl rfl
         · exact G2.refl st
@@ -489,8 +489,18 @@ theorem step_cancelFound (st : St) (a : Nat) (w : Watch) (l : List Nat) (hl : l 
   · exact (((((g2_setListOf_ne st w.type _ ht).trans (g2_cancelNotify _ a w)).trans (g2_cancelHook _ _ _)).trans (g2_free _ a)).trans
       (g2_cancelRest _ _)).step
 
-theorem step_watchCancel (st : St) (a : Nat) : SigStep st (watchCancel st a) := by
-  unfold watchCancel
+theorem g2_cancelDetached (st : St) (a : Nat) : G2 st (cancelDetached st a) := by
+  unfold cancelDetached
+  exact (g2_cancelNotify st a _).trans (g2_setTypeNone _ a)
+
+theorem g2_laterPre (st : St) (a : Nat) : G2 st (laterPre st a) := by
+  unfold laterPre
+  split
+  · exact g2_setW _ a _ rfl rfl id
+  · exact G2.refl _
+
+theorem step_watchCancel0 (st : St) (a : Nat) : SigStep st (watchCancel0 st a) := by
+  unfold watchCancel0
   split
   · exact SigStep.refl st
   · split
@@ -500,11 +510,21 @@ theorem step_watchCancel (st : St) (a : Nat) : SigStep st (watchCancel st a) := 
       · split
         · exact (g2_fail st _).step
         · split
-          · exact SigStep.refl st
+          · split
+            · exact (g2_cancelDetached st a).step
+            · exact SigStep.refl st
           · rename_i hc
             have : a ∈ listOf st (st.getW a).type := by
               simpa using hc
             exact step_cancelFound st a _ _ rfl this
+
+theorem step_watchCancel (st : St) (a : Nat) : SigStep st (watchCancel st a) := by
+  unfold watchCancel
+  split
+  · split
+    · exact (step_watchCancel0 st a).trans (step_watchCancel0 _ _)
+    · exact step_watchCancel0 st a
+  · exact step_watchCancel0 st a
 
 theorem step_doRegister (st : St) (k : Int) (reg : St → St × Nat) (h : ∀ s, SigStep s (reg s).1) :
     SigStep st (doRegister st k reg) := by
@@ -515,11 +535,13 @@ theorem step_doRegister (st : St) (k : Int) (reg : St → St × Nat) (h : ∀ s,
     · exact (g2_emit _ _).step
     · exact (h st).trans (g2_with_slots _ _).step
 
+theorem g2_with_cancelReq (st : St) (l : List Int) : G2 st { st with cancelReq := l } := G2.of_eq rfl rfl
+
 theorem step_doCancel (st : St) (k : Int) : SigStep st (doCancel st k) := by
   unfold doCancel
   split
   · exact (g2_emit _ _).step
-  · exact step_watchCancel _ _
+  · exact (g2_with_cancelReq _ _).step.trans (step_watchCancel _ _)
 
 theorem g2_with_sigchldwatch (st : St) (x : Option Nat) : G2 st { st with sigchldwatch := x } := G2.of_eq rfl rfl
 
@@ -529,11 +551,27 @@ theorem step_ensureSigchld (st : St) : SigStep st (ensureSigchld st) := by
   · exact SigStep.refl _
   · exact (step_watchSignal _ _ _ _).trans (g2_with_sigchldwatch _ _).step
 
+theorem g2_setNotify (st : St) (a : Nat) (n : Option Nat) : G2 st (setNotify st a n) := by
+  unfold setNotify
+  exact g2_setW st a { st.getW a with notify := n } rfl rfl id
+
+theorem g2_linkNotified (r : St × Nat) (a : Nat) (flags : Nat) : G2 r.1 (linkNotified r a flags) := by
+  unfold linkNotified
+  exact ((g2_setNotify r.1 a (some r.2)).trans (g2_insertWatch _ _ _ _)).trans (g2_with_procs _ _)
+
+theorem g2_clearNotify (st : St) (a : Nat) : G2 st (clearNotify st a) := by
+  unfold clearNotify
+  split
+  · exact g2_setNotify st a none
+  · exact G2.refl _
+
 theorem g2_linkProcess (st : St) (a : Nat) (pid : Int) (flags : Nat) : G2 st (linkProcess st a pid flags) := by
   unfold linkProcess
   simp only []
   split
-  · exact ((g2_waitpid _ _).trans (g2_setWstatus _ _ _)).trans (g2_watchLater _ _ _ _)
+  · split
+    · exact (((g2_waitpid _ _).trans (g2_setWstatus _ _ _)).trans (g2_watchLater _ _ _ _)).trans (g2_linkNotified _ _ _)
+    · exact ((g2_waitpid _ _).trans (g2_setWstatus _ _ _)).trans (g2_watchLater _ _ _ _)
   · exact ((g2_waitpid _ _).trans (g2_insertWatch _ _ _ _)).trans (g2_with_procs _ _)
 
 theorem step_watchProcess (st : St) (pid : Int) (flags : Nat) (slot : Int) : SigStep st (watchProcess st pid flags slot).1 := by
@@ -734,7 +772,7 @@ theorem step_processNotify (st : St) (a : Nat) : SigStep st (processNotify st a)
   unfold processNotify
   split
   · exact (g2_fail _ _).step
-  · exact step_invokeWatch _ _ _ _
+  · exact (g2_clearNotify _ _).step.trans (step_invokeWatch _ _ _ _)
 
 theorem step_laterCb (st : St) (a : Nat) : SigStep st (laterCb st a) := by
   unfold laterCb
@@ -755,10 +793,12 @@ theorem step_laterLoopT (l : List Nat) : ∀ st : St, SigStep st (laterLoopT st 
     · split
       · exact (g2_fail _ _).step
       · split
-        · exact step_laterCb _ _
+        · exact (g2_free _ a).step.trans (ih _)
         · split
-          · exact (step_laterCb _ _).trans (g2_fail _ _).step
-          · exact ((step_laterCb _ _).trans (g2_free _ a).step).trans (ih _)
+          · exact (g2_laterPre st a).step.trans (step_laterCb _ a)
+          · split
+            · exact ((g2_laterPre st a).step.trans (step_laterCb _ a)).trans (g2_fail _ _).step
+            · exact (((g2_laterPre st a).step.trans (step_laterCb _ a)).trans (g2_free _ a).step).trans (ih _)
 
 theorem step_laterLoop (l : List Nat) (st : St) : SigStep st (laterLoop st l) := step_laterLoopT l st
 
@@ -913,7 +953,9 @@ theorem g2_pollTimeout (st : St) (t : Option Int) : G2 st (pollTimeout st t) := 
   · exact G2.of_eq rfl rfl
   · exact G2.refl _
 
-theorem g2_deliverPending (st : St) : G2 st (deliverPending st) := G2.of_eq rfl rfl
+theorem g2_deliverPending (st : St) : G2 st (deliverPending st) := by
+  unfold deliverPending
+  split <;> exact G2.of_eq rfl rfl
 
 theorem g2_ppoll (st : St) (t : Option Int) : G2 st (ppoll st t).1 := by
   unfold ppoll
